@@ -6,7 +6,7 @@ Driver of the C16 model (`Model/KmlGuard`). One request per line, prefix notatio
   plan <n> Clause*n                              -> ok | err:<code>:<tag>
   export WList                                   -> ok | err:syntax:<tag>
   assert <seq> OptStr Term PAtom Term Asg OptERef -> ok <n> Clause*n | none:<reason>
-  kind ERef OptWhere                             -> kind:<k>|kind:-       (what `guard_update` takes as target kind)
+  kind ERef OptWhere                             -> kinds:<k,…>|kinds:-   (the kinds `guard_update` guards the target for)
 
 Strings: `=text` (text over [A-Za-z0-9_#.-], non-empty) or `~hex` (anything else; kept opaque —
 strings are only compared, and every table constant is plain).
@@ -249,13 +249,13 @@ def showERef : ElementRef → String
   | .id s => "ri " ++ showStr s
 
 def pPAtom : P PredAtom
-  | "pv" :: r => do let (s, r) ← pStr r; pure (.variable s, r)
+  | "pv" :: r => do let (s, r) ← pStr r; pure (.vari s, r)
   | "pl" :: r => do let (s, r) ← pStr r; pure (.literal s, r)
   | "pp" :: r => do let (s, r) ← pStr r; pure (.param s, r)
   | _ => none
 
 def showPAtom : PredAtom → String
-  | .variable s => "pv " ++ showStr s
+  | .vari s => "pv " ++ showStr s
   | .literal s => "pl " ++ showStr s
   | .param s => "pp " ++ showStr s
 
@@ -278,7 +278,7 @@ def listToMatcher : List (String × MatchValue) → Matcher
 
 mutual
 partial def pMatchV : P MatchValue
-  | "Mv" :: r => do let (s, r) ← pStr r; pure (.variable s, r)
+  | "Mv" :: r => do let (s, r) ← pStr r; pure (.vari s, r)
   | "Mp" :: r => do let (s, r) ← pStr r; pure (.param s, r)
   | "Ml" :: r => do let (l, r) ← pLit r; pure (.literal l, r)
   | "Ma" :: r => do let (xs, r) ← pCounted pMatchV r; pure (.array (listToMatchList xs), r)
@@ -297,7 +297,7 @@ partial def pPropM : P PropMatcher
     pure (.tuple s p o, r)
   | _ => none
 partial def pTerm : P Term
-  | "Tv" :: r => do let (s, r) ← pStr r; pure (.variable s, r)
+  | "Tv" :: r => do let (s, r) ← pStr r; pure (.vari s, r)
   | "Tp" :: r => do let (s, r) ← pStr r; pure (.param s, r)
   | "Tl" :: r => do let (l, r) ← pLit r; pure (.literal l, r)
   | "Tm" :: r => do let (m, r) ← pMatcher r; pure (.mtch m, r)
@@ -307,7 +307,7 @@ end
 
 mutual
 partial def showMatchV : MatchValue → String
-  | .variable s => "Mv " ++ showStr s
+  | .vari s => "Mv " ++ showStr s
   | .param s => "Mp " ++ showStr s
   | .literal l => "Ml " ++ showLit l
   | .array items => let xs := showMatchList items; " ".intercalate (["Ma", toString xs.length] ++ xs)
@@ -326,7 +326,7 @@ partial def showPropM : PropMatcher → String
   | .id s => "qi " ++ showScalar s
   | .tuple s p o => s!"qt {showTerm s} {showPTerm p} {showTerm o}"
 partial def showTerm : Term → String
-  | .variable s => "Tv " ++ showStr s
+  | .vari s => "Tv " ++ showStr s
   | .param s => "Tp " ++ showStr s
   | .literal l => "Tl " ++ showLit l
   | .mtch m => "Tm " ++ showMatcher m
@@ -535,13 +535,15 @@ def showRes : Res → String
   | .ok _ => "ok"
   | .error e => "err:" ++ errTag e
 
-def showKindOpt : Option BoundKind → String
-  | none => "kind:-"
-  | some .assertion => "kind:assertion"
-  | some .evidence => "kind:evidence"
-  | some .proposition => "kind:proposition"
-  | some .concept => "kind:concept"
-  | some .activity => "kind:activity"
+def showBoundKind : BoundKind → String
+  | .assertion => "assertion"
+  | .evidence => "evidence"
+  | .proposition => "proposition"
+  | .concept => "concept"
+  | .activity => "activity"
+
+def showKinds (ks : List BoundKind) : String :=
+  if ks.isEmpty then "kinds:-" else "kinds:" ++ ",".intercalate (ks.map showBoundKind)
 
 def assertErrTag : AssertErr → String
   | .unknownMember => "unknown_member"
@@ -563,7 +565,7 @@ def handle (line : String) : String :=
     match pERef r with
     | some (t, r) =>
       match pOpt pWList r with
-      | some (w, []) => showKindOpt (updateKind { target := t, actions := [], whereClauses := w })
+      | some (w, []) => showKinds (updateKinds { target := t, actions := [], whereClauses := w })
       | _ => "bad-op"
     | none => "bad-op"
   | "assert" :: r =>
